@@ -57,7 +57,7 @@ def rewrite_braced(text, rng):
             l2 = line
             has_doc = '++' in re.sub(r'"(?:[^"\n_]|_.)*"', '""', line)
             if r < 0.5 and not has_doc: l2 = respace_line(line, rng, False); kinds.add('respace')
-            if rng.random() < 0.25 and '--' not in l2 and not has_doc: l2 = l2 + rews(rng) + '-- ' + rng.choice(['note', 'x := 1; {', 'if then', '"']); kinds.add('trailing-comment')
+            if rng.random() < 0.25 and '--' not in l2 and not has_doc: l2 = l2 + rews(rng) + '-- ' + rng.choice(['note', 'x := 1; {', 'if then', '"', 'ends with the escape character _', 'escape then blanks _  ', 'a_b _c d_ e']); kinds.add('trailing-comment')
             # split the line at a white-space run that is outside strings/comments
             if rng.random() < 0.3 and not has_doc:
                 toks = lex(l2)
@@ -70,7 +70,7 @@ def rewrite_braced(text, rng):
                     l2 = ''.join(t for _, t in toks[:i]) + sep + ''.join(t for _, t in toks[i + 1:])
             out.append(l2)
         if rng.random() < 0.15: out.append(rng.choice(['', '   ', '\t'])); kinds.add('blank-line')
-        if rng.random() < 0.12: out.append(' ' * rng.randint(0, 6) + '-- ' + rng.choice(['comment', 'f(x) == {', '#pile', '"unterminated'])); kinds.add('comment-line')
+        if rng.random() < 0.12: out.append(' ' * rng.randint(0, 6) + '-- ' + rng.choice(['comment', 'f(x) == {', '#pile', '"unterminated', 'continued? _', 'continued? _ '])); kinds.add('comment-line')
     # join adjacent plain code lines
     res = []
     i = 0
@@ -106,11 +106,11 @@ def rewrite_piled(text, rng):
                 lead = ' ' * col
             has_doc = '++' in re.sub(r'"(?:[^"\n_]|_.)*"', '""', rest)
             if rng.random() < 0.5 and not has_doc: rest = respace_line(rest, rng, False); kinds.add('respace')
-            if rng.random() < 0.2 and '--' not in rest and not has_doc: rest = rest + rews(rng) + '-- note'; kinds.add('trailing-comment')
+            if rng.random() < 0.2 and '--' not in rest and not has_doc: rest = rest + rews(rng) + rng.choice(['-- note', '-- note _', '-- note _  ']); kinds.add('trailing-comment')
             if rng.random() < 0.2: rest = rest + rng.choice([' ', '\t', '   ']); kinds.add('trailing-space')
             out.append(lead + rest)
         if rng.random() < 0.15: out.append(rng.choice(['', '    ', '\t'])); kinds.add('blank-line')
-        if rng.random() < 0.1: out.append('-- comment in column one'); kinds.add('comment-line')
+        if rng.random() < 0.1: out.append(rng.choice(['-- comment in column one', '-- comment ending in the escape character _'])); kinds.add('comment-line')
     return '\n'.join(out) + '\n', sorted(kinds)
 
 def rewrite(text, rng):
